@@ -293,6 +293,7 @@ type SX struct {
 	InlineStaticSelf bool
 	addrTaken        map[types.Object]bool
 	loopID           int
+	loopLabel        map[ast.Stmt]string   // labels of labelled loops
 	fieldVars        map[string]*types.Var // scalar replacement: (struct made on this path, field) -> pseudo local
 	fieldInits       map[*types.Var]Term   // its initial value
 	instArgs         []types.Type          // type arguments of the generic function being inlined through a function value
@@ -337,6 +338,131 @@ func (x *SX) Run(fd *ast.FuncDecl) []*Path {
 		}
 	}
 	return x.finish(outs)
+}
+
+// guardedForever: `for { if G { break }; body; i-- }` is `for ; !G; i-- { body }`. When every iteration path starts by deciding the same
+// condition, and deciding it one way means leaving by break at once (nothing done, nothing assigned), that condition becomes the loop
+// condition; a counter every continuing iteration advances by the same constant becomes the (synthesised) post statement.
+func (x *SX) guardedForever(rec *LoopRec) {
+	if len(rec.Iter) < 2 {
+		return
+	}
+	var G Term
+	var leave *Path
+	leaveTruth := false
+	for _, p := range rec.Iter {
+		if p.Why != "" || len(p.Steps) == 0 || p.Steps[0].Kind != "cond" {
+			return
+		}
+		cd := p.Steps[0].Cond
+		if G == nil {
+			G = cd.T
+		} else if !sameTerm(G, cd.T) {
+			return
+		}
+		if len(p.Steps) == 1 && p.End == "break" {
+			unchanged := true
+			for o, t := range p.Env {
+				if h, ok := rec.HeadEnv[o]; ok && !sameTerm(h, t) {
+					unchanged = false
+				}
+			}
+			if unchanged {
+				if leave != nil {
+					return
+				}
+				leave, leaveTruth = p, cd.Truth
+			}
+		}
+	}
+	if leave == nil {
+		return
+	}
+	var rest []*Path
+	for _, p := range rec.Iter {
+		if p == leave {
+			continue
+		}
+		if p.Steps[0].Cond.Truth == leaveTruth {
+			return // the guard also leads elsewhere
+		}
+		q := *p
+		q.Steps = append([]Step(nil), p.Steps[1:]...)
+		rest = append(rest, &q)
+	}
+	if leaveTruth {
+		rec.CondT = simplify(TUn{token.NOT, G})
+	} else {
+		rec.CondT = G
+	}
+	rec.Iter = rest
+	// the counter
+	for o := range rec.Init {
+		if !isIntType(o.Type()) {
+			continue
+		}
+		var step int64
+		ok, n := true, 0
+		for _, p := range rest {
+			if p.End != "fall" && p.End != "continue" {
+				continue
+			}
+			n++
+			b, isB := p.Env[o].(TBin)
+			if !isB || (b.Op != token.ADD && b.Op != token.SUB) {
+				ok = false
+				break
+			}
+			lv, isL := b.X.(TLoop)
+			k, isK := constInt(b.Y)
+			if !isL || lv.Obj != o || lv.ID != rec.ID || !isK || k == 0 {
+				ok = false
+				break
+			}
+			if b.Op == token.SUB {
+				k = -k
+			}
+			if step != 0 && step != k {
+				ok = false
+				break
+			}
+			step = k
+		}
+		if !ok || n == 0 || step == 0 {
+			continue
+		}
+		if rec.PostStep == nil {
+			rec.PostStep = map[types.Object]int64{}
+		}
+		rec.PostStep[o] = step
+		for _, p := range rest {
+			if p.End == "fall" || p.End == "continue" {
+				p.Env = copyEnv(p.Env)
+				p.Env[o] = TLoop{o, rec.ID}
+			}
+		}
+	}
+}
+
+// resolveLabels: iteration paths ending in `break L` / `continue L` with L the label of this very loop end in break / continue;
+// a labelled branch that leaves an outer loop from here is outside the vocabulary.
+func (x *SX) resolveLabels(rec *LoopRec, loop ast.Stmt) {
+	own := x.loopLabel[loop]
+	for _, p := range rec.Iter {
+		i := strings.Index(p.End, ":")
+		if i < 0 {
+			continue
+		}
+		kind, label := p.End[:i], p.End[i+1:]
+		if own != "" && label == own {
+			p.End = kind
+			continue
+		}
+		if p.Why == "" {
+			p.Why = kind + " " + label + " leaves an outer loop"
+		}
+		p.End = "break"
+	}
 }
 
 // namedResult: the value a bare return hands back for the named result o — the variable's memory when its address was taken
@@ -414,6 +540,9 @@ func (x *SX) localStruct(base Term) (structObj, bool) {
 		so, typ = structObj{key: fmt.Sprintf("new%d", -b.Epoch)}, b.Type
 	default:
 		return so, false
+	}
+	if _, anon := typ.(*types.Struct); anon {
+		return so, true // a local of an unnamed struct type (`var guard struct{ wg sync.WaitGroup; mu sync.Mutex }`): two locals bundled
 	}
 	n, ok := typ.(*types.Named)
 	if !ok || n.Obj().Pkg() != x.c.Types || x.c.Inv().ContOf(n) != nil {
@@ -577,7 +706,16 @@ func (x *SX) stmt(s ast.Stmt, st *sxState) []outcome {
 	case *ast.BlockStmt:
 		return x.block(v.List, st)
 	case *ast.LabeledStmt:
-		x.unsupported(st, "labelled statement")
+		switch v.Stmt.(type) {
+		case *ast.ForStmt, *ast.RangeStmt:
+			// a labelled loop: `break L` / `continue L` from inside a switch of its body are its own break / continue
+			if x.loopLabel == nil {
+				x.loopLabel = map[ast.Stmt]string{}
+			}
+			x.loopLabel[v.Stmt] = v.Label.Name
+		default:
+			x.unsupported(st, "labelled statement")
+		}
 		return x.stmt(v.Stmt, st)
 	case *ast.DeclStmt:
 		gd, ok := v.Decl.(*ast.GenDecl)
@@ -713,6 +851,9 @@ func (x *SX) stmt(s ast.Stmt, st *sxState) []outcome {
 		}
 		return res
 	case *ast.BranchStmt:
+		if v.Label != nil && (v.Tok == token.BREAK || v.Tok == token.CONTINUE) {
+			return []outcome{{kind: v.Tok.String() + ":" + v.Label.Name, node: v, st: st}}
+		}
 		if v.Label != nil || v.Tok == token.GOTO || v.Tok == token.FALLTHROUGH {
 			x.unsupported(st, "%s with label / goto / fallthrough", v.Tok)
 			return []outcome{{kind: "break", node: v, st: st}}
@@ -1326,6 +1467,10 @@ func (x *SX) forOnce(v *ast.ForStmt, oc outcome, id int, bump int, extra []types
 		rec.CondT = simplify(x.eval(v.Cond, iter))
 	}
 	rec.Iter = x.finish(x.block(v.Body.List, iter))
+	x.resolveLabels(rec, v)
+	if v.Cond == nil && v.Post == nil {
+		x.guardedForever(rec)
+	}
 	after := head
 	after.epoch += 1000 * bump // whatever the loop did, later loads are distinct from earlier ones
 	if bump > 0 {
@@ -1420,6 +1565,7 @@ func (x *SX) rangeOnce(v *ast.RangeStmt, ev evalOut, id int, bump int, extra []t
 		iter.env[rec.Value] = TVar{rec.Value}
 	}
 	rec.Iter = x.finish(x.block(v.Body.List, iter))
+	x.resolveLabels(rec, v)
 	after := head
 	after.epoch += 1000 * bump
 	if bump > 0 {
@@ -1592,6 +1738,20 @@ func (x *SX) evalFork(e ast.Expr, st *sxState) []evalOut {
 					}
 				}
 				return outs
+			}
+			if se, ok := unparen(v.X).(*ast.SelectorExpr); ok {
+				if sel := c.Info.Selections[se]; sel != nil && sel.Kind() == types.FieldVal && len(sel.Index()) == 1 {
+					f := sel.Obj().(*types.Var)
+					if _, isStruct := f.Type().Underlying().(*types.Struct); isStruct {
+						// &w.field of a struct made on this path: the address of the pseudo local the field is kept in
+						outs := x.evalFork(se.X, st)
+						if len(outs) == 1 && outs[0].kind == "" {
+							if so, ok := x.localStruct(outs[0].val); ok {
+								return []evalOut{{outcome: outcome{st: outs[0].st}, val: TAddr{TVar{x.fieldVar(so, f)}}}}
+							}
+						}
+					}
+				}
 			}
 			return one(TAddr{x.lvalue(v.X, st)})
 		}
